@@ -71,11 +71,11 @@ WIDTH_CLASS = [(50, 1), (62.5, 2), (75, 3), (87.5, 4), (100, 5), (112.5, 6), (12
 
 
 def n_cases(tier):
-    return 1400 if tier == "quick" else 26000
+    return 1000 if tier == "quick" else 16000
 
 
 def budget_s(tier):
-    return 150 if tier == "quick" else 1200
+    return 150 if tier == "quick" else 1500
 
 
 # =============================================================================================
